@@ -177,42 +177,38 @@ pub struct SnapshotReader {
 
 impl SnapshotReader {
     pub async fn init_by_file(mut file: Box<tokio::fs::File>) -> anyhow::Result<Self> {
-        let mut message_reader = MessageBufReader::new();
-        let mut buf = vec![0u8; 1024];
         file.seek(std::io::SeekFrom::Start(0)).await?;
-        let read_len = file.read(&mut buf).await?;
-        message_reader.append_next_buf(&buf[..read_len]);
-        if let Some(v) = message_reader.next_message_vec() {
-            let mut reader = BytesReader::from_bytes(v);
-            let header: SnapshotHeader = reader.read_message(v)?;
-            Ok(Self {
-                file,
-                header: header.into(),
-                message_reader,
-                is_end: false,
-            })
-        } else {
-            Err(anyhow::anyhow!("read snapshot head error"))
-        }
+        Self::read_header(file).await
     }
 
     pub async fn init(path: &str) -> anyhow::Result<Self> {
-        let mut file = Box::new(OpenOptions::new().read(true).open(path).await?);
+        let file = Box::new(OpenOptions::new().read(true).open(path).await?);
+        Self::read_header(file).await
+    }
+
+    /// The header is an ordinary record: it may be longer than one read chunk.
+    async fn read_header(mut file: Box<tokio::fs::File>) -> anyhow::Result<Self> {
         let mut message_reader = MessageBufReader::new();
         let mut buf = vec![0u8; 1024];
-        let read_len = file.read(&mut buf).await?;
-        message_reader.append_next_buf(&buf[..read_len]);
-        if let Some(v) = message_reader.next_message_vec() {
-            let mut reader = BytesReader::from_bytes(v);
-            let header: SnapshotHeader = reader.read_message(v)?;
-            Ok(Self {
+        loop {
+            let read_len = file.read(&mut buf).await?;
+            if read_len == 0 {
+                return Err(anyhow::anyhow!("read snapshot head error"));
+            }
+            message_reader.append_next_buf(&buf[..read_len]);
+            let header: SnapshotHeaderDto = if let Some(v) = message_reader.next_message_vec() {
+                let mut reader = BytesReader::from_bytes(v);
+                let header: SnapshotHeader = reader.read_message(v)?;
+                header.into()
+            } else {
+                continue;
+            };
+            return Ok(Self {
                 file,
-                header: header.into(),
+                header,
                 message_reader,
                 is_end: false,
-            })
-        } else {
-            Err(anyhow::anyhow!("read snapshot head error"))
+            });
         }
     }
 
